@@ -3,7 +3,34 @@
 let z_of_string s = let v = Int64.of_string s in
   let rec pos (i : int64) = if i = 1L then XH else if Int64.rem i 2L = 0L then XO (pos (Int64.div i 2L)) else XI (pos (Int64.div i 2L)) in
   if v = 0L then Z0 else if v > 0L then Zpos (pos v) else Zneg (pos (Int64.neg v))
+(* "T <actions>": the frames of the history as the model sees them (H2Trace.trace: the object of the whole-trace theorem), in the harness' notation *)
+exception Oracle
+let show_frame f = Printf.sprintf "%c%d.%x.%d.%s.%s.%s" (match f.w with Cl -> 'c' | Sv -> 's') (int_of_n f.ty) (int_of_n f.fl) (int_of_n f.st)
+                     (z_to_string f.len) (z_to_string f.arg) (z_to_string f.arg2)
+let model_trace line =
+  try
+    let started = ref false in
+    let evs = List.map (fun tok ->
+      let a = Array.of_list (String.split_on_char ':' tok) in
+      let ev = match a.(0) with
+        | "P" -> if !started then raise Oracle; started := true; EvSettings []
+        | "S" -> let ps = if Array.length a < 2 || a.(1) = "" then [] else
+                   List.map (fun p -> match String.split_on_char '=' p with
+                     | [i; v] -> (n_of_int (int_of_string i), z_of_string v) | _ -> raise Oracle) (String.split_on_char ',' a.(1)) in
+                 EvSettings ps
+        | "SA" -> EvSettingsAck
+        | "H" -> if Array.length a <> 5 || a.(2) <> "5" || a.(3) <> "GET" || String.length a.(4) < 3 || String.sub a.(4) 0 2 <> "/b" then raise Oracle;
+                 EvHeaders (n_of_int (int_of_string a.(1)), z_of_string (String.sub a.(4) 2 (String.length a.(4) - 2)))
+        | "W" -> EvWU (n_of_int (int_of_string a.(1)), z_of_string a.(2))
+        | "G" -> EvPing
+        | _ -> raise Oracle in
+      if not !started then raise Oracle; ev) (split_ws line) in
+    match trace h2_init evs with
+    | None -> print_endline "ORACLE"
+    | Some tr -> print_endline (String.concat " " (List.map show_frame tr) ^ (match legal false tr with None -> " |legal" | Some v -> Printf.sprintf " |V%d" (int_of_n v)))
+  with Oracle | Failure _ | Invalid_argument _ -> print_endline "ORACLE"
 let () = iter_lines (fun line ->
+  if String.length line > 2 && String.sub line 0 2 = "T " then model_trace (String.sub line 2 (String.length line - 2)) else
   try
     let body, fin = match Str.bounded_split (Str.regexp_string " |end ") line 2 with [a; b] -> (a, b) | _ -> (line, "") in
     let alive = try ignore (Str.search_forward (Str.regexp_string "alive=1") fin 0); true with Not_found -> false in
